@@ -135,6 +135,13 @@ def handleTEI : Handler := fun st op args =>
       let (recs, x) := run (mkEnv st.basis t true) (tokenize (charsOfBytes bytes))
       some (st, fmtExit x ++ fmtRecs recs)
     | _, _ => some (st, "bad-op")
+  -- every search is cancelled inside its first ply: the searcher has nothing to report (empty PV, not a broken contract)
+  | "teiexp", _depth :: hex :: ents =>
+    match unhex hex, parseTable ents with
+    | some bytes, some t =>
+      let (recs, x) := run (mkEnv st.basis { t with gos := [] } false) (tokenize (charsOfBytes bytes))
+      some (st, fmtExit x ++ fmtRecs recs)
+    | _, _ => some (st, "bad-op")
   | "teiclass", _depth :: hex :: ents =>
     match unhex hex, parseTable ents with
     | some bytes, some t =>
